@@ -56,7 +56,7 @@ func termDepth(v ssa.Value, d int, phi map[*ssa.Phi]ssa.Value) string {
 	if v == nil {
 		return "nil"
 	}
-	if d > 12 {
+	if d > 30 {
 		return "…"
 	}
 	switch x := v.(type) {
